@@ -19,14 +19,16 @@ def tyOf : Sexp → Option Ty
 
 partial def hOf : Sexp → Option H
   | .atom "tt" => some .tt | .atom "ff" => some .ff
-  | .atom "eqfun" => some .eqFun | .atom "unsup" => some .unsup
+  | .atom "eqfun" => some (.eqFun 0) | .atom "unsup" => some (.unsup 0)
+  | .list [.atom "eqfun", k] => do some (.eqFun (← k.toNat?))
+  | .list [.atom "unsup", k] => do some (.unsup (← k.toNat?))
   | .list [.atom "var", .atom x, T] => do some (.var x (← tyOf T))
   | .list [.atom "bv", i] => do some (.bv (← i.toNat?))
   | .list [.atom "num", T, p, q] => do
       let p ← p.toInt?; let q ← q.toNat?
       some (.num (← tyOf T) (mkRat p q))
   | .list [.atom "not", a] => do some (.not (← hOf a))
-  | .list [.atom "neg", a] => do some (.neg (← hOf a))
+  | .list [.atom "neg", n, a] => do some (.neg (← n.toBool?) (← hOf a))
   | .list [.atom "ofnat", a] => do some (.ofNat (← hOf a))
   | .list [.atom "ofnatvar", .atom x] => some (.ofNatVar x)
   | .list [.atom "abs", r, a] => do some (.abs (← r.toBool?) (← hOf a))
